@@ -79,8 +79,10 @@ CLAIMED = {
     "C19": (
         "Every binary tree shape with <=4 leaves (5 thorough) over 3 features, built through the real Tree._add_child; the real "
         "print_kauri_tree output is read back by an independent parser and applied to a SYMBOLIC point with every comparison "
-        "forked; on every feasible path it must agree with the real Tree.predict; refusals checked concretely.",
-        "Trusted: the reader of the printed layout (written from the documented layout); thresholds concrete (0.0, negative, repeated).",
+        "forked; on every feasible path it must agree with the real Tree.predict; refusals checked concretely.  Trees are built in every "
+        "order in which their splits can have been performed (node numbering differs, the function does not).",
+        "Trusted: the reader of the printed layout (written from the documented layout); thresholds concrete (0.0, negative, repeated, doubles "
+        "needing 17 significant digits, large and small magnitudes).",
         "DESIGN.md §4 C19", "symbolic execution of the repository source (symx): symbolic query point forked through printed rules and Tree.predict (z3 feasibility)"),
     "C06": (
         "Bounded symbolic model checking on the real sparse-model methods with ARBITRARY symbolic weights: selection == rows with a "
@@ -185,7 +187,10 @@ CLAIMED = {
         "it was requested with; labels are symbolic integers, forked); means, covariances, proportions symbolic: sample i is row i of "
         "the draw of the component named by its label, requested moments equal the documented ones (d=1: std^2 == variance, by "
         "solver), proportions forwarded, shapes/label ranges, rejection <=> documented conditions (comparisons forked; symbolic "
-        "eigenvalues); Student-t formula by normal form; gstm / celeux_* forward the documented parameters.",
+        "eigenvalues); Student-t formula by normal form; gstm / celeux_* forward the documented parameters.  Independently of the "
+        "primitives an implementation is built from (choice / uniform; normal / multivariate_normal / standard normals times a factor), "
+        "on five concrete parameter sets: P(label=k) as the sum of the measures of the path conditions in the uniform symbol (z3 "
+        "optimisation queries) and mean / covariance of the sample from its affine form in tagged Gaussian symbols.",
         "NOT claimed: 'within sampling error' and seed determinism (NumPy's RNG); constants of celeux_two's dependent variables. "
         "Replays use sample statistics of the real generators.",
         "DESIGN.md §4 C20", "symbolic execution of the repository source (symx) under stubs: symbolic data/parameters, decisions forked with z3 feasibility, post-conditions by normal form / solver query / term identity"),
